@@ -194,11 +194,11 @@ theorem perEns_fam (status : Status) : ∀ (l : List (Picked × List Rat)) {s s'
       rename_i s4 tn4 pns4 hrec
       simp only [Except.ok.injEq, Prod.mk.injEq] at hp
       obtain ⟨rfl, rfl, _⟩ := hp
-      have hc2 := h.congr (s' := { { s with locked := popLocked p.pn s.locked.length 0 s.locked } with
+      have hc2 := h.congr (s' := { { s with locked := popLocked p.pn s.locked.length 0 s.locked, lockedOrd := popLockedOrd p.pn s.locked.length 0 s.locked s.lockedOrd } with
           frac := s.frac ++ [(tn, List.replicate s.n 0)], wts := s.wts ++ [(tn, w)] })
         ⟨rfl, rfl, rfl, rfl, rfl⟩
       have hnew : tn ∉ s.wts.map Prod.fst := fun hm => Nat.lt_irrefl _ (hf.wkeys tn hm)
-      have hf2 : Fam { { s with locked := popLocked p.pn s.locked.length 0 s.locked } with
+      have hf2 : Fam { { s with locked := popLocked p.pn s.locked.length 0 s.locked, lockedOrd := popLockedOrd p.pn s.locked.length 0 s.locked s.lockedOrd } with
           frac := s.frac ++ [(tn, List.replicate s.n 0)], wts := s.wts ++ [(tn, w)] } (tn + 1) := by
         refine ⟨hf.rows, hf.perm, ?_, ?_, ?_, ?_⟩
         · intro i q hi hq
@@ -247,9 +247,9 @@ theorem perEns_fam (status : Status) : ∀ (l : List (Picked × List Rat)) {s s'
       rename_i s4 tn4 pns4 hrec
       simp only [Except.ok.injEq, Prod.mk.injEq] at hp
       obtain ⟨rfl, rfl, _⟩ := hp
-      have hc2 := h.congr (s' := { s with locked := popLocked p.pn s.locked.length 0 s.locked })
+      have hc2 := h.congr (s' := { s with locked := popLocked p.pn s.locked.length 0 s.locked, lockedOrd := popLockedOrd p.pn s.locked.length 0 s.locked s.lockedOrd })
         ⟨rfl, rfl, rfl, rfl, rfl⟩
-      have hf2 : Fam { s with locked := popLocked p.pn s.locked.length 0 s.locked } tn :=
+      have hf2 : Fam { s with locked := popLocked p.pn s.locked.length 0 s.locked, lockedOrd := popLockedOrd p.pn s.locked.length 0 s.locked s.lockedOrd } tn :=
         hf.congr ⟨rfl, rfl, rfl, rfl, rfl, rfl, rfl⟩
       obtain ⟨w', hw1, hw2⟩ := hf.wts (slotOf p) p.pn hlt htr
       have hlook' : s.wts.lookup p.pn = some wOld := hlook
